@@ -31,9 +31,14 @@ type cfg struct {
 	Max int
 	// TwoQuotas: a second, fixed-window quota with its own Limiter follows the concurrent one
 	TwoQuotas bool
+	// RateFirst: (with TwoQuotas) the fixed-window Limiter comes first, the concurrent one second
+	RateFirst bool
 }
 
 func (c cfg) name() string {
+	if c.TwoQuotas && c.RateFirst {
+		return fmt.Sprintf("rate-quota+max=%d", c.Max)
+	}
 	if c.TwoQuotas {
 		return fmt.Sprintf("max=%d+rate-quota", c.Max)
 	}
@@ -100,6 +105,13 @@ func flowFor(c cfg) string {
         processor:
           name: F
 `, 1)
+	if c.RateFirst {
+		// the same graph with the two Limiters' quotas exchanged: L asks the fixed-window
+		// quota, L2 the concurrent one
+		f = strings.Replace(f, "        value: Q\n", "        value: @\n", 1)
+		f = strings.Replace(f, "        value: R\n", "        value: Q\n", 1)
+		f = strings.Replace(f, "        value: @\n", "        value: R\n", 1)
+	}
 	return f
 }
 
@@ -374,7 +386,7 @@ var _ = os.Getenv
 func TestCheck(t *testing.T) {
 	r := mc.New("C02", "model_checking")
 	depth := mc.Pick(r, 6, 7)
-	cs := []cfg{{Max: 1}, {Max: 2}, {Max: 1, TwoQuotas: true}}
+	cs := []cfg{{Max: 1}, {Max: 2}, {Max: 1, TwoQuotas: true}, {Max: 1, TwoQuotas: true, RateFirst: true}}
 	if f := mc.ReplayFile(); f != "" {
 		var rp mc.BFSReplay
 		if err := mc.LoadReplay(f, &rp); err != nil || rp.Model == "" {
